@@ -535,3 +535,77 @@ Theorem simple_refines_pair a loc cmd arg txt s r' ret' :
 Proof. intro H. pose proof (simple_refines _ _ _ _ _ _ _ H) as E. inversion E. split; reflexivity. Qed.
 
 End Script.
+
+(* ---------------------------------------------------------------------------------------- *)
+(* the same with the trace of states after every command *)
+Section Trace.
+Variable rvalid : bytes -> bool.
+Variable rfind : bytes -> bytes -> bool -> option (nat * nat).
+Variable filter : bytes -> bytes -> option bytes.
+Variable readfile : bytes -> option bytes.
+Variable curpath : bytes.
+
+Lemma last_nonempty {A} (d d' : A) : forall l b, last (b :: l) d = last (b :: l) d'.
+Proof. induction l as [|a l IH]; intro b; [reflexivity|]. change (last (a :: l) d = last (a :: l) d'). apply IH. Qed.
+Lemma last_cons {A} (a d : A) l : last (a :: l) d = last l a.
+Proof. destruct l as [|b l]; [reflexivity|]. change (last (b :: l) d = last (b :: l) a). apply last_nonempty. Qed.
+
+(* ex_exec_tr is ex_exec: its last state is ex_exec's result (the start state for an empty line) *)
+Theorem exec_tr_last : forall fuel ret ln s,
+  fst (ex_exec rvalid rfind filter readfile curpath fuel ret ln s) = last (ex_exec_tr rvalid rfind filter readfile curpath fuel ret ln s) s.
+Proof.
+  induction fuel as [|f IH]; intros ret ln s; [reflexivity|]. cbn [ex_exec ex_exec_tr].
+  destruct ln as [|c ln]; [reflexivity|].
+  destruct (ex_loc (c :: ln)) as [ln1 loc]. destruct (ex_cmd ln1) as [ln2 cmd].
+  set (abbr := match ex_idx cmd with Some a => a | None => _ end).
+  destruct (ex_arg ln2 abbr) as [ln3 arg]. destruct (ex_txt ln3 abbr s) as [[ln4 txt] s1].
+  match goal with |- fst (let '(s2, ret2) := ?m in _) = _ => destruct m as [s2 ret2] end.
+  rewrite last_cons. apply IH.
+Qed.
+
+Theorem exec_tr_refines : forall fuel ret ln s t,
+  ref_exec_tr rvalid rfind filter readfile curpath fuel ret ln (abs s) = Some t ->
+  map abs (ex_exec_tr rvalid rfind filter readfile curpath fuel ret ln s) = t.
+Proof.
+  induction fuel as [|f IH]; intros ret ln s t; [discriminate|]. cbn [ex_exec_tr ref_exec_tr].
+  destruct ln as [|c ln]; [intro H; inversion H; reflexivity|].
+  destruct (ex_loc (c :: ln)) as [ln1 loc]. destruct (ex_cmd ln1) as [ln2 cmd].
+  set (abbr := match ex_idx cmd with Some a => a | None => _ end).
+  destruct (ex_arg ln2 abbr) as [ln3 arg]. rewrite abs_txt.
+  destruct (ex_txt ln3 abbr s) as [[ln4 txt] s1]. cbn [fst snd].
+  match goal with |- match ?m with Some _ => _ | None => _ end = _ -> _ => destruct m as [[r2 rt2]|] eqn:RM end; [|discriminate].
+  intro H.
+  match goal with |- map abs (let '(s2, ret2') := ?m in _) = _ => assert (M : absr m = (r2, rt2)) end.
+  { destruct (ex_idx cmd) as [a|].
+    - destruct ((hd0 a =? 103)%N || (hd0 a =? 118)%N); [discriminate|].
+      destruct (hd0 a =? 64)%N.
+      + apply (abs_at _ _ _ _ _ _ _ _ (exec_refines rvalid rfind filter readfile curpath f 0) RM).
+      + apply abs_simple. exact RM.
+    - destruct (is_other cmd); [discriminate|]. inversion RM. reflexivity. }
+  match goal with |- map abs (let '(s2, ret2') := ?m in _) = _ => destruct m as [s2 ret2'] end.
+  unfold absr in M. cbn [fst snd] in M. inversion M; subst.
+  destruct (ref_exec_tr rvalid rfind filter readfile curpath f rt2 ln4 (abs s2)) as [t'|] eqn:RT; [|discriminate].
+  inversion H; subst. cbn [map]. f_equal. apply IH. exact RT.
+Qed.
+
+Theorem main_tr_refines : forall n fuel s t,
+  ref_main_tr rvalid rfind filter readfile curpath n fuel (abs s) = Some t ->
+  map abs (ex_main_tr rvalid rfind filter readfile curpath n fuel s) = t.
+Proof.
+  induction n as [|n IH]; intros fuel s t; [discriminate|]. cbn [ex_main_tr ref_main_tr].
+  change (r_quit (abs s)) with (xquit s). change (r_inp (abs s)) with (inp s).
+  destruct (xquit s); [intro H; inversion H; reflexivity|].
+  destruct (inp s) as [|ln rest]; [intro H; inversion H; reflexivity|].
+  rewrite <- abs_set_inp.
+  destruct (ref_exec rvalid rfind filter readfile curpath fuel 0 ln (abs (set_inp s rest))) as [[r1 z]|] eqn:RE; [|discriminate].
+  destruct (ref_exec_tr rvalid rfind filter readfile curpath fuel 0 ln (abs (set_inp s rest))) as [t1|] eqn:RT; [|discriminate].
+  pose proof (exec_refines _ _ _ _ _ _ _ _ _ _ RE) as M. pose proof (exec_tr_refines _ _ _ _ _ RT) as MT.
+  unfold ex_command.
+  destruct (ex_exec rvalid rfind filter readfile curpath fuel 0 ln (set_inp s rest)) as [s1 z']. unfold absr in M. cbn [fst snd] in *.
+  inversion M; subst.
+  destruct (ref_main_tr rvalid rfind filter readfile curpath n fuel (r_regs_set (abs s1) (reg_put (r_regs (abs s1)) 58 ln))) as [t2|] eqn:RM; [|discriminate].
+  intro H. inversion H; subst. rewrite map_app. f_equal. apply IH.
+  rewrite abs_set_regs. cbn [regs bump set_lb]. rewrite abs_bump. exact RM.
+Qed.
+
+End Trace.
